@@ -65,6 +65,7 @@ func (c *FnCtx) bindLocal(st *State, v *types.Var, val Term, pos token.Pos) {
 			ref = cur // re-assignment of the whole struct: overwrite the fields in place
 		} else {
 			ref = Term{S: c.newRef(st, v.Name()), Sort: sV, T: types.NewPointer(v.Type())}
+			c.tagRef(st, ref)
 		}
 		for i := 0; i < stt.NumFields(); i++ {
 			f := stt.Field(i)
